@@ -422,3 +422,43 @@ Proof.
   split; [reflexivity|]. split; [reflexivity|]. split; [repeat constructor|].
   split; [discriminate|]. exact gromacs_novel_witness_special.
 Qed.
+
+(* ---------------------------------------------------------------- call sites: the moves of tis.py *)
+(* "wherever the package regenerates velocities": shoot hands the ensemble's tis_set to
+   modify_velocities; wire_fencing hands its sub-moves the same dictionary with allowmaxlength
+   switched on.  For every move, every regeneration it makes and every key other than
+   allowmaxlength the engine is handed the ensemble's value (nothing is dropped) *)
+Theorem C16_call_site_settings : forall ka km vt mv s hs h k,
+  handed ka km vt mv s = Some hs -> In h hs -> k <> ka -> sget k h = sget k s.
+Proof. exact call_site_settings. Qed.
+Print Assumptions C16_call_site_settings.
+
+Theorem C16_call_site_count : forall ka km vt mv s hs, handed ka km vt mv s = Some hs ->
+  length hs = match mv with MShoot => 1%nat | MWireFencing true n => n | MWireFencing false _ => 0%nat end.
+Proof. exact call_site_count. Qed.
+Print Assumptions C16_call_site_count.
+
+(* zero_momentum = true in the ensemble's settings => zero total momentum of the velocities
+   written by every regeneration of every move (CP2K / GROMACS / LAMMPS / TurtleMD) *)
+Theorem C16_call_site_momentum_zero : forall ka km vt kz mv s hs h e mass src ek sig z,
+  handed ka km vt mv s = Some hs -> In h hs -> kz <> ka -> sget kz s = Some vt ->
+  ~ sumQ mass == 0 -> length sig = length mass -> Forall (fun zc => length zc = length mass) z ->
+  Forall (fun c => mom_col mass c == 0)
+         (f_vel (r_frame (modify_std e mass src ek (zm_of vt (sget kz h)) sig z))).
+Proof. exact call_site_momentum_zero. Qed.
+Print Assumptions C16_call_site_momentum_zero.
+
+(* a wire-fencing move that builds a fresh dictionary for its sub-moves loses the request *)
+Theorem C16_call_site_rebuilt_settings_refuted : exists ka km vt kz s hs h,
+  kz <> ka /\ sget kz s = Some vt /\
+  handed_with (wf_sub_settings_rebuilt ka km vt) (MWireFencing true 1) s = Some hs /\ In h hs /\
+  sget kz h = None /\ use_zm Turtle (zm_of vt (sget kz h)) = false.
+Proof. exact call_site_rebuilt_refuted. Qed.
+Print Assumptions C16_call_site_rebuilt_settings_refuted.
+
+(* settings {maxlength: 7, allowmaxlength: False, zero_momentum: True, aimless: True}, keys
+   interned 1, 0, 2, 3, True = 1: a wire-fencing move with three jumps *)
+Example C16_call_site_hypotheses_met :
+  handed 0 1 1 (MWireFencing true 3) [(1, 7); (0, 0); (2, 1); (3, 1)]%Z
+  = Some (repeat [(1, 7); (0, 1); (2, 1); (3, 1)]%Z 3).
+Proof. reflexivity. Qed.
